@@ -252,10 +252,10 @@ pub fn affine3a_of(a: [f32; 12]) -> Affine3A {
 }
 
 // ---- uninterpreted matrix-level functions (forwarding lemmas): key = bits of up to two matrices + one vector/scalar
-pub struct MemoK<T: Copy> {
+pub struct MemoK<T: Copy, const S: usize> {
     pub calls: usize,
-    pub k: [[u64; 36]; 10],
-    pub v: [T; 10],
+    pub k: [[u64; 36]; S],
+    pub v: [T; S],
 }
 #[inline(always)]
 pub fn keq36(a: &[u64; 36], b: &[u64; 36]) -> bool {
@@ -282,16 +282,16 @@ pub fn kcat(a: [u64; 16], b: [u64; 16], c: [u64; 4]) -> [u64; 36] {
     k[35] = c[3];
     k
 }
-impl<T: Copy> MemoK<T> {
+impl<T: Copy, const S: usize> MemoK<T, S> {
     pub const fn new(z: T) -> Self {
-        MemoK { calls: 0, k: [[0; 36]; 10], v: [z; 10] }
+        MemoK { calls: 0, k: [[0; 36]; S], v: [z; S] }
     }
     #[inline(always)]
     pub fn get(&mut self, key: [u64; 36], fresh: T) -> T {
         let i = self.calls;
-        assert!(i < 10, "uf memo table overflow");
+        assert!(i < S, "uf memo table overflow");
         let mut v = fresh;
-        let mut j = 10;
+        let mut j = S;
         while j > 0 {
             j -= 1;
             if j < i && keq36(&self.k[j], &key) {
